@@ -411,3 +411,44 @@ def edge_docs():
             middle = block_box([target], pb=2) if shape == 'wrapped' else target
             kids = ([para_box(k)] if k else []) + [middle, para_box(2)]
             yield f'edge-k{k}-h{height}-pt{pt}-bt{bt}-pb{pb}-mt{mt}-{shape}', make_doc(100, kids)
+
+
+def earlier_break_docs():
+    """Boxes cut by find_earlier_page_break (first the document of the repaired finding
+    earlier-break-keeps-bottom-decoration): a block with bottom padding / border / margin - sliced or cloned, directly
+    in the body or nested - holding n lines, whose break-after (or the next box's break-before) is avoided, followed
+    by a paragraph that does not fit on the 50px page."""
+    import itertools
+    for pb, bb, mb, clone, n, nested, side in itertools.product((5, 0), (0, 2), (0, 4), (False, True), (5, 4),
+                                                                (False, True), ('after', 'before')):
+        if not (pb or bb or mb):
+            continue
+        inner = para_box(n)
+        if nested:
+            inner = block_box([inner], pb=pb)
+        first = block_box([inner], pb=pb, bb=bb, mb=mb, clone=clone,
+                          brkAfter='avoid-page' if side == 'after' else 'auto')
+        second = para_box(2, brkBefore='avoid' if side == 'before' else 'auto')
+        yield (f'earlier-pb{pb}-bb{bb}-mb{mb}-c{int(clone)}-n{n}-d{int(nested)}-{side}',
+               make_doc(50, [first, second]))
+
+
+def spacer_docs():
+    """Empty boxes through which margins collapse (height auto or 0, no padding / border / min-height) with vertical
+    margins, placed after 8 / 9 / 10 lines of a 100px page so that the page bottom falls inside their margins: alone,
+    two of them, nested in a section, at the end of the document or followed by a paragraph. They take no room and
+    never need a page of their own."""
+    import itertools
+    for k, height, mt, mb, shape, tail in itertools.product((8, 9, 10), ('auto', 0), (10, 20), (0, 10),
+                                                            ('one', 'two', 'nested'), (False, True)):
+        def spacer():
+            return block_box(height=height, mt=mt, mb=mb)
+        if shape == 'one':
+            kids = [para_box(k), spacer()]
+        elif shape == 'two':
+            kids = [para_box(k), spacer(), spacer()]
+        else:
+            kids = [block_box([para_box(k), spacer()])]
+        if tail:
+            kids.append(para_box(1))
+        yield f'spacer-k{k}-h{height}-mt{mt}-mb{mb}-{shape}-t{int(tail)}', make_doc(100, kids)
